@@ -1,12 +1,15 @@
 (* C05  The circuit-to-CNF reduction is exact.
    Statements only; proofs live in Proofs/Tseytin*.v.  The clause templates
    (Generated/Tseytin.v: template_of) are regenerated from cirbo/sat/cnf/tseytin.py on every
-   check; the transformation itself (Model/TseytinAlg.v) is tied to the code by exact
-   clause-list correspondence.  Literals are non-zero integers, sigma : Z -> bool values the
+   check; the transformation itself (Model/TseytinAlg.v) is tied to the code twice: it is
+   regenerated statement by statement from the source on every check
+   (Generated/TseytinAlgGen.v, translator T13) and proved equal to the hand model
+   (C05_algorithm_regenerated), and by exact clause-list correspondence.  Literals are non-zero integers, sigma : Z -> bool values the
    variables, `lval` a literal, `sat` a clause list. *)
 Require Import Cirbo.Model.Base Cirbo.Model.Gate Cirbo.Model.Den Cirbo.Model.Circuit Cirbo.Model.Eval
         Cirbo.Model.Sem Cirbo.Model.Cnf Cirbo.Model.TseytinAlg Cirbo.Model.TseytinCases.
-Require Import Cirbo.Generated.Tseytin.
+Require Import Cirbo.Generated.Tseytin Cirbo.Generated.TseytinAlgGen.
+Require Import Cirbo.Proofs.TseytinAlgGen.
 Require Import Cirbo.Proofs.TseytinTemplates Cirbo.Proofs.TseytinSound Cirbo.Proofs.TseytinSat
         Cirbo.Proofs.TseytinFuel Cirbo.Proofs.TseytinExamples.
 Local Open Scope Z_scope.
@@ -88,6 +91,23 @@ Theorem C05_circuit_sat_answer : forall solve : list (list Z) -> option (list Z)
   forall c r, tseytin_wf c = true -> is_circuit_satisfiable solve c = Ok r ->
   ((exists m, r = Some m) <-> exists a, total_on c a /\ Forall (fun o => Eval c a o T) (outputs c)).
 Proof. exact circuit_sat_answer. Qed.
+
+(* (iv) the hand model IS the code: gen_tseytin_transformation (Generated/TseytinAlgGen.v) is
+   regenerated on every check from the statements of tseytin_transformation and its closures
+   (__register_new_gate, the defaultdict saved_lits, get_lit, the recursive process_gate, the
+   numbering loop over circuit.inputs, the default selection, the loop over the selected outputs
+   with its unit clauses, `return Cnf(cnf)`), calling the regenerated accessors of circuit.py
+   (T9) and the regenerated templates (T2).  It returns the final closure state and the raw
+   clause list of the returned Cnf object.  For ALL circuits, selections and fuels - no side
+   condition - the raw list and the final saved_lits are what the model returns (same error
+   otherwise); `tseytin` / `tseytin_cnf`, the objects of the theorems above, are the instance
+   fuel = size + 1. *)
+Theorem C05_algorithm_regenerated : forall c outs,
+  (forall fuel, (do r <- gen_tseytin_transformation fuel c outs; Ok (snd r, saved (fst r)))
+                = tseytin_fuel fuel c outs) /\
+  (do r <- gen_tseytin_transformation (S (size c)) c outs; Ok (snd r, saved (fst r))) = tseytin c outs /\
+  (do r <- gen_tseytin_transformation (S (size c)) c outs; Ok (snd r)) = tseytin_cnf c outs.
+Proof. exact algorithm_regenerated. Qed.
 
 (* ---- non-vacuity: the hypotheses are satisfiable ---------------------------------- *)
 (* a circuit with a 3-operand XOR satisfies every hypothesis, the transformation returns on it,
